@@ -65,6 +65,13 @@ CHECKS = {
             "typed-equal to what the first accepting member (order from typing.get_args of the spelled type) returns alone; each value sequence is replayed a second time on the "
             "memoised converter (history independence); serialisation must come from a member that round-trips the value.",
             "Members are converted alone by the same implementation (strictly smaller types, themselves covered by C01). Member pool and value pools are fixed."),
+    'C13': ("exhaustive enumeration of condition expressions (atoms closed under the combinators) x inner types x placements x boundary grid on the real converters; reference evaluator",
+            "All 53 stock-condition atoms (every (min,max) pair of val_range / len_range over {None,0,5,2.5} / {None,0,1,2}, the seven adjectives, shape / broadcastable for five shapes, "
+            "raising / user / non-bool predicates) closed under &, |, ~, Condition.all, Condition.any and multi-condition Annotated (1.1k expressions quick, two levels thorough) are "
+            "attached to 8 inner types in 5 placements and run over each type's complete boundary grid; accept iff the inner type accepts and the reference evaluator (Python's own "
+            "operators, left-to-right short circuit) says True; a raising predicate must yield a ConditionFailedError with cause, a false one without; the accepted value is the inner "
+            "conversion's; into_data ignores conditions. Each condition object sees the whole grid in sequence, so stateful predicates are exposed.",
+            "Grid values and shapes are fixed lists; numpy semantics are taken from numpy itself."),
     'C20': ("bounded-exhaustive enumeration of all identifiers (<=3/4 words over a 3-letter alphabet) x styles on the real rename code, algebraic-law oracle",
             "Every snake_case identifier of up to 3 (quick) / 4 (thorough) words of 2-3 letters over {a,b,z} is pushed through all 5 styles and all 25 style pairs on the real code; canonical form, idempotence, inverse and composition laws are checked on every one, malformed shapes must raise ValueError, and the class-level rename path is exercised on generated classes. The space is finite and fully enumerated, which is the right level for a pure string function whose failure modes are word-boundary patterns that all occur within 3-4 short words.",
             "Alphabet {a,b,z}, words of 2-3 letters; digits / non-ASCII outside the alphabet. Oracle formulas are independent of pane's splitting code."),
